@@ -107,14 +107,44 @@ func Prog(req *Request) (res *ProgRes) {
 	clock, advance := dig.VerifMockClock()
 	r.advance = advance
 	var opts []dig.Option
-	if req.Cfg.Defer {
-		opts = append(opts, dig.DeferAcyclicVerification())
-	}
-	if req.Cfg.Recover {
-		opts = append(opts, dig.RecoverFromPanics())
-	}
-	if req.Cfg.Dry {
-		opts = append(opts, dig.DryRun(true))
+	if len(req.Cfg.OptSeq) > 0 {
+		eff := Cfg{}
+		for _, o := range req.Cfg.OptSeq {
+			if len(o) != 2 {
+				panic(badTypes{"optseq entries are [name, bool]"})
+			}
+			name, _ := o[0].(string)
+			val, ok := o[1].(bool)
+			if !ok {
+				panic(badTypes{"optseq entries are [name, bool]"})
+			}
+			switch {
+			case name == "dry":
+				opts = append(opts, dig.DryRun(val))
+				eff.Dry = val
+			case name == "defer" && val:
+				opts = append(opts, dig.DeferAcyclicVerification())
+				eff.Defer = true
+			case name == "recover" && val:
+				opts = append(opts, dig.RecoverFromPanics())
+				eff.Recover = true
+			default:
+				panic(badTypes{"unknown optseq entry " + name})
+			}
+		}
+		if eff.Dry != req.Cfg.Dry || eff.Defer != req.Cfg.Defer || eff.Recover != req.Cfg.Recover {
+			panic(badTypes{"optseq does not amount to the stated configuration"})
+		}
+	} else {
+		if req.Cfg.Defer {
+			opts = append(opts, dig.DeferAcyclicVerification())
+		}
+		if req.Cfg.Recover {
+			opts = append(opts, dig.RecoverFromPanics())
+		}
+		if req.Cfg.Dry {
+			opts = append(opts, dig.DryRun(true))
+		}
 	}
 	opts = append(opts, clock)
 	r.container = dig.New(opts...)
